@@ -43,6 +43,7 @@ class MRel:
     det: bool  # list order is determined independently of any scan order
     sort_cols: frozenset | None = None  # columns used by the sort that defines the order
     sort_visible: bool = True  # those columns are all still present
+    engine: str | None = None  # engine the relation lives in (None if unknown)
 
 
 def allsame(rows) -> bool:
@@ -135,19 +136,21 @@ class Model:
             spec = self.leaves[prog[1]]
             cols = list(spec["cols"])
             rows = [dict(zip(cols, r)) for r in spec["rows"]]
-            return MRel(frozenset(cols), rows, len(rows) <= 1 or spec.get("engine") in self.ordered_engines)
+            return MRel(frozenset(cols), rows, len(rows) <= 1 or spec.get("engine") in self.ordered_engines, engine=spec.get("engine"))
         if op == "mat":
             t = self.eval(prog[1])
-            return dataclasses.replace(t, rows=list(t.rows))
+            # a SQL materialization is a table: whatever order its query had is forgotten
+            keep = t.det and not (t.engine or "").startswith("sql")
+            return dataclasses.replace(t, rows=list(t.rows), det=keep)
         if op == "xfer":
             t = self.eval(prog[1])
-            keep = t.det and (not self.ordered_engines or prog[2] in self.ordered_engines)
-            return dataclasses.replace(t, rows=list(t.rows), det=keep)
+            keep = t.det and not prog[2].startswith("sql") and (not self.ordered_engines or prog[2] in self.ordered_engines)
+            return dataclasses.replace(t, rows=list(t.rows), det=keep, engine=prog[2])
         if op == "chain":
             a, b = self.eval(prog[1]), self.eval(prog[2])
             if a.cols != b.cols:
                 raise ModelError("chain columns differ")
-            return MRel(a.cols, [dict(r) for r in a.rows] + [dict(r) for r in b.rows], False)
+            return MRel(a.cols, [dict(r) for r in a.rows] + [dict(r) for r in b.rows], False, engine=a.engine)
         if op == "join":
             a, b = self.eval(prog[1]), self.eval(prog[2])
             p = prog[3]
@@ -164,7 +167,7 @@ class Model:
                         row = {**left, **right}
                         if p is None or pv(p, row):
                             rows.append(row)
-            return MRel(a.cols | b.cols, rows, False)
+            return MRel(a.cols | b.cols, rows, False, engine=b.engine if (a.engine != b.engine) else a.engine)
         t = self.eval(prog[1])
         if op == "calc":
             tag, e = prog[2], prog[3]
@@ -202,7 +205,7 @@ class Model:
             if not need <= t.cols:
                 raise ModelError("sort columns missing")
             rows = m_sort(t.rows, terms)
-            return MRel(t.cols, rows, sort_is_total(rows, terms), frozenset(need), True)
+            return MRel(t.cols, rows, sort_is_total(rows, terms), frozenset(need), True, engine=t.engine)
         if op == "slice":
             start, stop = prog[2], prog[3]
             if self.sql_slices and not t.det and not slice_order_independent(t.rows, start, stop):
